@@ -24,7 +24,7 @@ RULE = ("seeded histories of 1-14 steps over create / remove / flush / remove-of
         "exception raised after step j for EVERY j in 0..len, return and break out of the body (fault enumeration "
         "over all body positions). Multi-process pools: 1-3 forked children creating files before and after the "
         "parent's flush(), exiting normally or by exception, parent leaving normally or by exception; race cases: children create files continuously WHILE the parent flushes repeatedly with every statement of flush() stretched by an injected delay. FilePool: 0-6 "
-        "existing files (with duplicates) in modes r, rb, w, a, r+, ab, body exits enumerated the same way. "
+        "existing files (with duplicates, sometimes /dev/null among them) in modes r, rb, w, a, r+, ab, wb, bodies that also close a handle themselves, body exits enumerated the same way. "
         "distinct_nontrivial = distinct (kind, history, exit route) executions with >=2 steps.")
 ASSUMPTIONS = [
     "remove() is only called with paths the pool returned and still lists (other arguments are outside the statement)",
@@ -74,7 +74,8 @@ def gen_case(rng, tier, index):
     nfiles = rng.randint(0, 6)
     files = [rng.randrange(5) for _ in range(nfiles)]
     return {"kind": "filepool", "files": files, "mode": rng.choice(["r", "rb", "w", "a", "r+", "ab", "wb"]),
-            "ops": [[rng.choice(["get", "len", "iter", "write_or_read"]), rng.randrange(1 << 16)]
+            "devnull": rng.random() < 0.3,
+            "ops": [[rng.choice(["get", "len", "iter", "write_or_read", "write_or_read", "close_one"]), rng.randrange(1 << 16)]
                     for _ in range(rng.randint(0, 6))]}
 
 
@@ -476,6 +477,8 @@ def run_filepool(case, res):
             f.write("seed line\n")
     paths = [names[i] for i in case["files"]]
     mode = case["mode"]
+    if case.get("devnull") and mode not in ("r", "rb"):
+        paths = paths[:1] + ["/dev/null"] + paths[1:]      # a non-regular file among the pool's files
     steps = case["ops"]
     routes = ["normal", "return"] + [f"raise@{j}" for j in range(len(steps) + 1)]
 
@@ -493,7 +496,7 @@ def run_filepool(case, res):
             for p in set(paths):
                 h = fp[p]
                 handles[p] = h
-                if h.closed or os.path.realpath(h.name) != os.path.realpath(p) or h.mode != mode:
+                if h.closed or os.path.realpath(h.name) != os.path.realpath(p) or h.mode.replace("b", "") != mode.replace("b", ""):
                     fail("filepool-mapping", f"handle for {p} is closed / not on that path / wrong mode")
             for j, (op, a) in enumerate(steps + [["end", 0]]):
                 if stop_at == j:
@@ -503,7 +506,9 @@ def run_filepool(case, res):
                 if not paths:
                     continue
                 p = paths[a % len(paths)]
-                if op == "get":
+                if op == "close_one":
+                    fp[p].close()          # closing a handle inside the body is legal (closing twice is a no-op)
+                elif op == "get":
                     if fp[p] is not handles[p]:
                         fail("filepool-mapping", "fp[path] returned another handle than before")
                 elif op == "len":
@@ -512,6 +517,8 @@ def run_filepool(case, res):
                     list(fp)
                 else:
                     h = fp[p]
+                    if h.closed:
+                        continue
                     if "r" in mode and "+" not in mode:
                         h.read(3)
                     else:
@@ -527,6 +534,11 @@ def run_filepool(case, res):
                 fail("exception-swallowed", "exception raised in the body did not propagate")
         except Boom:
             pass
+        except Violation:
+            raise
+        except Exception as e:
+            still = [p for p, h in handles.items() if not h.closed]
+            fail("filepool-exit-raised", f"leaving the context raised {type(e).__name__}: {e}; {len(still)} handle(s) left open")
         res.evaluations += 1
         res.count("filepool_executions")
         res.count("filepool_fault_positions" if route.startswith("raise") else "filepool_clean_exits")
